@@ -58,7 +58,7 @@ fn unary_cases(shapes: &[Vec<usize>]) -> Vec<GradCase> {
                     _ => n,
                 };
                 for seed in [Some(distinct_seed(out_n)), None] {
-                    out.push(GradCase { op: op.clone(), leaves: vec![LeafSpec { dims: shape.clone(), vals: vals.clone(), tracked: true }], seed, uses: 1, passes: 1, same_operand: false });
+                    out.push(GradCase { op: op.clone(), leaves: vec![LeafSpec { dims: shape.clone(), vals: vals.clone(), tracked: true }], seed, uses: 1, passes: 1, same_operand: false, detached_clone: 0 });
                 }
             }
         }
@@ -90,6 +90,7 @@ fn ew_case(pair: &(Vec<usize>, Vec<usize>), opi: usize, tri: usize, with_seed: b
         uses: 1,
         passes: 1,
         same_operand: false,
+        detached_clone: 0,
     }
 }
 
@@ -102,7 +103,7 @@ fn mm_case(cfg: &MatmulCfg, tri: usize) -> Option<GradCase> {
     }
     let leaves = cfg.leaves(tr);
     let t = refmodel::ops::matmul(&T::from_f64(&cfg.a, &leaves[0].vals), cfg.ta, &T::from_f64(&cfg.b, &leaves[1].vals), cfg.tb, None).ok()?;
-    Some(GradCase { op: cfg.op(), leaves, seed: Some(distinct_seed(t.numel())), uses: 1, passes: 1, same_operand: false })
+    Some(GradCase { op: cfg.op(), leaves, seed: Some(distinct_seed(t.numel())), uses: 1, passes: 1, same_operand: false, detached_clone: 0 })
 }
 
 fn conv_case(cfg: &ConvCfg, tri: usize) -> GradCase {
@@ -110,7 +111,7 @@ fn conv_case(cfg: &ConvCfg, tri: usize) -> GradCase {
     let leaves = cfg.leaves(tr);
     let n = cfg.image.len();
     let out_n = numel(&cfg.image[..n - 3]) * cfg.filters[0] * cfg.out_windows();
-    GradCase { op: cfg.op(), leaves, seed: Some(distinct_seed(out_n)), uses: 1, passes: 1, same_operand: false }
+    GradCase { op: cfg.op(), leaves, seed: Some(distinct_seed(out_n)), uses: 1, passes: 1, same_operand: false, detached_clone: 0 }
 }
 
 #[derive(Clone, Debug)]
@@ -174,7 +175,7 @@ fn random_case(r: &RandRecipe) -> Option<GradCase> {
         return None;
     }
     let seed = if r.p[3] % 5 == 0 { None } else { Some(gen_vals(r.vseed ^ 99, out.numel(), VKind::Small)) };
-    Some(GradCase { op, leaves, seed, uses: 1, passes: 1, same_operand: false })
+    Some(GradCase { op, leaves, seed, uses: 1, passes: 1, same_operand: false, detached_clone: 0 })
 }
 
 pub fn dispatch(kind: &str, v: &Value) -> Option<Outcome> {
@@ -244,7 +245,7 @@ pub fn campaigns(ctx: &Ctx) -> Stats {
                     Sum(k) => numel(&d[..d.len() - k]),
                     _ => numel(d),
                 };
-                Some(GradCase { op, leaves: vec![LeafSpec { dims: d.clone(), vals, tracked: true }], seed: Some(distinct_seed(out_n)), uses: 1, passes: 1, same_operand: false })
+                Some(GradCase { op, leaves: vec![LeafSpec { dims: d.clone(), vals, tracked: true }], seed: Some(distinct_seed(out_n)), uses: 1, passes: 1, same_operand: false, detached_clone: 0 })
             } else {
                 let j = i - nu * 4 * N_PATTERNS as u64;
                 let (pa, pb) = ((j % N_PATTERNS as u64) as usize, ((j / N_PATTERNS as u64) % N_PATTERNS as u64) as usize);
@@ -279,7 +280,7 @@ pub fn campaigns(ctx: &Ctx) -> Stats {
                         return None;
                     }
                 }
-                Some(GradCase { op, leaves: vec![LeafSpec { dims: d, vals, tracked: true }], seed: Some(gen_vals(i + 5, out_n, VKind::Int)), uses: 1, passes: 1, same_operand: false })
+                Some(GradCase { op, leaves: vec![LeafSpec { dims: d, vals, tracked: true }], seed: Some(gen_vals(i + 5, out_n, VKind::Int)), uses: 1, passes: 1, same_operand: false, detached_clone: 0 })
             } else {
                 let j = i - nb * bops.len() as u64 * 2;
                 let n = BOUNDARY_SIZES[(j % nb) as usize];
@@ -294,7 +295,7 @@ pub fn campaigns(ctx: &Ctx) -> Stats {
         st.merge(ctx.run_indexed("boundary-sizes-two-uses", nb * 3, None, |i| {
             let n = BOUNDARY_SIZES[(i % nb) as usize];
             let op = [Mul, Add, Sub][(i / nb) as usize].clone();
-            Some(GradCase { op, leaves: vec![LeafSpec { dims: vec![n], vals: gen_vals(i, n, VKind::Int), tracked: true }, LeafSpec { dims: vec![n], vals: gen_vals(i + 9, n, VKind::Int), tracked: true }], seed: Some(gen_vals(i + 3, n, VKind::Int)), uses: 2, passes: 1, same_operand: false })
+            Some(GradCase { op, leaves: vec![LeafSpec { dims: vec![n], vals: gen_vals(i, n, VKind::Int), tracked: true }, LeafSpec { dims: vec![n], vals: gen_vals(i + 9, n, VKind::Int), tracked: true }], seed: Some(gen_vals(i + 3, n, VKind::Int)), uses: 2, passes: 1, same_operand: false, detached_clone: 0 })
         }));
     }
     // matmul
@@ -312,7 +313,7 @@ pub fn campaigns(ctx: &Ctx) -> Stats {
         let l = *d.last().unwrap();
         let n = numel(d);
         let vals: Vec<f64> = (0..n).map(|j| (if (j / l) % 2 == 0 { o1 } else { o2 }) + ((j * 7) % 5) as f64 * 0.5 - 1.0).collect();
-        Some(GradCase { op: OpKind::Softmax, leaves: vec![LeafSpec { dims: d.to_vec(), vals, tracked: true }], seed: Some(distinct_seed(n)), uses: 1, passes: 1, same_operand: false })
+        Some(GradCase { op: OpKind::Softmax, leaves: vec![LeafSpec { dims: d.to_vec(), vals, tracked: true }], seed: Some(distinct_seed(n)), uses: 1, passes: 1, same_operand: false, detached_clone: 0 })
     }));
     // the same array in both operand slots (x op x, matmul(x, x^T), x^T x), 1 and 2 passes
     {
@@ -329,7 +330,19 @@ pub fn campaigns(ctx: &Ctx) -> Stats {
             let mut st = refmodel::model::RefState::new(0);
             let h = st.new_leaf(&leaf.dims, &leaf.vals, false);
             let out = st.eval(&op, &[h, h]).ok()?;
-            Some(GradCase { op, leaves: vec![leaf.clone(), leaf], seed: Some(distinct_seed(out.numel())), uses: 1, passes, same_operand: true })
+            Some(GradCase { op, leaves: vec![leaf.clone(), leaf], seed: Some(distinct_seed(out.numel())), uses: 1, passes, same_operand: true, detached_clone: 0 })
+        }));
+        // a tracked array next to a detached clone of itself (x op x.clone().untracked()), either operand order
+        st.merge(ctx.run_indexed("array-next-to-its-detached-clone", ns * no * 2, None, |i| {
+            let d = &shapes[(i % ns) as usize];
+            let op = ops[((i / ns) % no) as usize].clone();
+            let which = 1 + (i / ns / no) as u8;
+            let vals = gen_vals(i, numel(d), VKind::PosInt);
+            let leaf = LeafSpec { dims: d.clone(), vals, tracked: true };
+            let mut st = refmodel::model::RefState::new(0);
+            let h = st.new_leaf(&leaf.dims, &leaf.vals, false);
+            let out = st.eval(&op, &[h, h]).ok()?;
+            Some(GradCase { op, leaves: vec![leaf.clone(), leaf], seed: Some(distinct_seed(out.numel())), uses: 1, passes: 1, same_operand: false, detached_clone: which })
         }));
         // every unary / binary operation differentiated twice / three times from the same result
         let twice: Vec<OpKind> = vec![Exp, Sigmoid, Softmax, Ln, Recip, Powf(3.0), Relu, Sum(1), Neg, ScaleR(2.0)];
@@ -341,7 +354,7 @@ pub fn campaigns(ctx: &Ctx) -> Stats {
                 let passes = 2 + (i / nt / 3) as usize;
                 let vals = gen_vals(i, numel(&d), vkind_for(&op));
                 let out_n = if let Sum(_) = op { numel(&d[..d.len() - 1]) } else { numel(&d) };
-                Some(GradCase { op, leaves: vec![LeafSpec { dims: d, vals, tracked: true }], seed: Some(gen_vals(i + 3, out_n, VKind::PosInt)), uses: 1, passes, same_operand: false })
+                Some(GradCase { op, leaves: vec![LeafSpec { dims: d, vals, tracked: true }], seed: Some(gen_vals(i + 3, out_n, VKind::PosInt)), uses: 1, passes, same_operand: false, detached_clone: 0 })
             } else {
                 let j = i - nt * 6;
                 let mut c = ew_case(&(vec![2, 1, 3], vec![2, 3]), (j % 5) as usize, ((j / 5) % 3) as usize, true);
